@@ -133,10 +133,46 @@ func c17ValidConfig(rnd *rand.Rand, origins []string, ports []int, nasty bool) *
 }
 
 // c17Defects single injected defects of documented kinds: each must make Validate fail
+// c17NearMiss: a name that differs from the given one only in letter case (or, without letters, by one more character)
+func c17NearMiss(name string) string {
+	b := []rune(name)
+	for i, ch := range b {
+		if ch >= 'a' && ch <= 'z' {
+			b[i] = ch - 32
+			return string(b)
+		}
+		if ch >= 'A' && ch <= 'Z' {
+			b[i] = ch + 32
+			return string(b)
+		}
+	}
+	return name + "x"
+}
+
 var c17Defects = []struct {
 	name string
 	fn   func(c *config.PikeConfig)
 }{
+	// references that miss an existing name by the case of one letter (judged only if they really dangle)
+	{"nearmiss_location_upstream", func(c *config.PikeConfig) {
+		l := &c.Locations[len(c.Locations)-1]
+		l.Upstream = c17NearMiss(l.Upstream)
+	}},
+	{"nearmiss_server_location", func(c *config.PikeConfig) {
+		sv := &c.Servers[0]
+		if len(sv.Locations) > 0 {
+			sv.Locations[0] = c17NearMiss(sv.Locations[0])
+		}
+	}},
+	{"nearmiss_server_cache", func(c *config.PikeConfig) { c.Servers[0].Cache = c17NearMiss(c.Servers[0].Cache) }},
+	{"nearmiss_server_compress", func(c *config.PikeConfig) {
+		sv := &c.Servers[len(c.Servers)-1]
+		if sv.Compress != "" {
+			sv.Compress = c17NearMiss(sv.Compress)
+		} else {
+			sv.Cache = c17NearMiss(sv.Cache)
+		}
+	}},
 	{"location_upstream_dangling", func(c *config.PikeConfig) { c.Locations[len(c.Locations)-1].Upstream = "nowhere" }},
 	{"location_upstream_dangling_first", func(c *config.PikeConfig) { c.Locations[0].Upstream = "nowhere" }},
 	{"server_location_dangling", func(c *config.PikeConfig) {
@@ -260,7 +296,7 @@ func normCfg(c *config.PikeConfig) string {
 }
 
 func c17(r *hx.Run) {
-	r.Rule = "generated configurations (1-3 caches/upstreams/compress profiles, 1-4 locations, 1-3 servers, optional fields set or unset; names and free-text values drawn from strings that need YAML quoting). (1) Validate must accept each valid one and reject each of 33 single injected defects (every dangling reference, at first and last position, and every malformed documented field); any accepted configuration must pass the independent closure predicate. (2) Write then Read through the file client must return the same configuration (modulo version, yaml text, nil vs empty), also when the stored document was replaced from outside between two saves of the same configuration. (3) accepted configurations are applied to a freshly started real pike process and every server is probed: no answer may be pike's own 'cache dispatcher / upstream not found', nor 'location not found' where the reference router finds one; names with leading/trailing white space included. (4) two accepted configurations saved to a running instance in quick succession, the second one (which renames the cache, location and upstream the server refers to) while the first is still being applied: and a third save that only renames the upstream a location refers to: once settled, the server resolves everything. Non-trivial/distinct = (defect kind) / round-tripped configuration containing a nasty string / applied configuration."
+	r.Rule = "generated configurations (1-3 caches/upstreams/compress profiles, 1-4 locations, 1-3 servers, optional fields set or unset; names and free-text values drawn from strings that need YAML quoting). (1) Validate must accept each valid one and reject each of 37 single injected defects (every dangling reference, at first and last position, references that miss an existing name by the case of one letter, and every malformed documented field); any accepted configuration must pass the independent closure predicate. (2) Write then Read through the file client must return the same configuration (modulo version, yaml text, nil vs empty), also when the stored document was replaced from outside between two saves of the same configuration. (3) accepted configurations are applied to a freshly started real pike process and every server is probed: no answer may be pike's own 'cache dispatcher / upstream not found', nor 'location not found' where the reference router finds one; names with leading/trailing white space included. (4) two accepted configurations saved to a running instance in quick succession, the second one (which renames the cache, location and upstream the server refers to) while the first is still being applied: and a third save that only renames the upstream a location refers to: once settled, the server resolves everything. Non-trivial/distinct = (defect kind) / round-tripped configuration containing a nasty string / applied configuration."
 	r.Assume = []string{"documented field kinds only; duplicate names and sub-second durations are accepted by pike and not judged"}
 	rnd := rand.New(rand.NewSource(r.Seed))
 	origins := []string{"http://127.0.0.1:3001", "http://127.0.0.1:3002"}
@@ -283,6 +319,11 @@ func c17(r *hx.Run) {
 		d.fn(bad)
 		err := bad.Validate()
 		closed, why := c17Closed(bad)
+		if strings.HasPrefix(d.name, "nearmiss_") && closed {
+			// the altered reference names another existing entity (or nothing was altered): nothing to judge
+			r.Add("near_miss_references_that_resolve", 1)
+			continue
+		}
 		if err == nil {
 			kind := "malformed_field_accepted"
 			if !closed {
